@@ -124,10 +124,18 @@ spec fn pitem_ok(has: ArcRel, qv: Seq<int>, vis: Seq<bool>, srcs: Set<int>, d: s
     }
 }
 
+spec fn pitem_at(has: ArcRel, qv: Seq<int>, pv: Seq<Option<int>>, vis: Seq<bool>, srcs: Set<int>, d: spec_fn(int) -> int, i: int) -> bool {
+    pitem_ok(has, qv, vis, srcs, d, pv[i], qv[i])
+}
+
+spec fn pitems(has: ArcRel, qv: Seq<int>, pv: Seq<Option<int>>, vis: Seq<bool>, srcs: Set<int>, d: spec_fn(int) -> int) -> bool {
+    &&& pv.len() == qv.len()
+    &&& forall|i: int| 0 <= i < qv.len() ==> #[trigger] pitem_at(has, qv, pv, vis, srcs, d, i)
+}
+
 spec fn pinv(has: ArcRel, qv: Seq<int>, pv: Seq<Option<int>>, lv: Seq<int>, vis: Seq<bool>, srcs: Set<int>, d: spec_fn(int) -> int) -> bool {
     &&& binv(has, qv, lv, vis, srcs, d)
-    &&& pv.len() == qv.len()
-    &&& forall|i: int| 0 <= i < qv.len() ==> pitem_ok(has, qv, vis, srcs, d, #[trigger] pv[i], qv[i])
+    &&& pitems(has, qv, pv, vis, srcs, d)
 }
 
 /// one step: bstep + the new items carry Some(front vertex)
@@ -135,6 +143,52 @@ spec fn pstep(has: ArcRel, qv: Seq<int>, pv: Seq<Option<int>>, lv: Seq<int>, vis
     &&& bstep(has, qv, lv, vis, qv2, lv2, vis2, add)
     &&& pv.len() == qv.len()
     &&& pv2 == pv.skip(1) + Seq::new(add.len(), |k: int| Some(qv[0]))
+}
+
+/// the item part of one step, from the facts about the step that lemma_step / lemma_step_queue provide
+proof fn lemma_pitems_step(has: ArcRel, qv: Seq<int>, pv: Seq<Option<int>>, vis: Seq<bool>, qv2: Seq<int>, pv2: Seq<Option<int>>, vis2: Seq<bool>, add: Seq<int>, srcs: Set<int>, d: spec_fn(int) -> int, d2: spec_fn(int) -> int)
+    requires
+        qv.len() > 0,
+        pitems(has, qv, pv, vis, srcs, d),
+        forall|i: int| 0 <= i < qv.len() ==> is_vis(vis, #[trigger] qv[i]),
+        forall|s: int| #[trigger] srcs.contains(s) ==> is_vis(vis, s),
+        qv2.len() == qv.len() - 1 + add.len(),
+        forall|i: int| 0 <= i < qv.len() - 1 ==> #[trigger] qv2[i] == qv[i + 1],
+        forall|i: int| qv.len() - 1 <= i < qv2.len() ==> #[trigger] qv2[i] == add[i - (qv.len() - 1)],
+        pv2 == pv.skip(1) + Seq::new(add.len(), |k: int| Some(qv[0])),
+        forall|v: int| #[trigger] is_done(qv2, vis2, v) <==> is_done(qv, vis, v) || v == qv[0],
+        forall|k: int| 0 <= k < add.len() ==> !is_vis(vis, #[trigger] add[k]) && has(qv[0], add[k]) && d2(add[k]) == d(qv[0]) + 1,
+        forall|v: int| #[trigger] is_vis(vis, v) ==> d2(v) == d(v),
+    ensures
+        pitems(has, qv2, pv2, vis2, srcs, d2),
+{
+    let n = qv.len() - 1;
+    assert(pv.skip(1).len() == n);
+    assert(pv2.len() == qv2.len());
+    assert forall|i: int| 0 <= i < qv2.len() implies #[trigger] pitem_at(has, qv2, pv2, vis2, srcs, d2, i) by {
+        if i < n {
+            assert(pv2[i] == pv.skip(1)[i]);
+            assert(pv2[i] == pv[i + 1]);
+            assert(qv2[i] == qv[i + 1]);
+            assert(pitem_at(has, qv, pv, vis, srcs, d, i + 1));
+            assert(is_vis(vis, qv[i + 1]));
+            match pv[i + 1] {
+                Some(u) => {
+                    assert(is_done(qv, vis, u));
+                    assert(is_done(qv2, vis2, u));
+                    assert(is_vis(vis, u));
+                }
+                None => {}
+            }
+        } else {
+            let k = i - n;
+            assert(pv2[i] == Some(qv[0]));
+            assert(qv2[i] == add[k]);
+            assert(!is_vis(vis, add[k]));
+            assert(is_done(qv2, vis2, qv[0]));
+            assert(is_vis(vis, qv[0]));
+        }
+    }
 }
 
 proof fn lemma_pstep(has: ArcRel, qv: Seq<int>, pv: Seq<Option<int>>, lv: Seq<int>, vis: Seq<bool>, qv2: Seq<int>, pv2: Seq<Option<int>>, lv2: Seq<int>, vis2: Seq<bool>, add: Seq<int>, srcs: Set<int>, d: spec_fn(int) -> int)
@@ -146,48 +200,20 @@ proof fn lemma_pstep(has: ArcRel, qv: Seq<int>, pv: Seq<Option<int>>, lv: Seq<in
         pinv(has, qv2, pv2, lv2, vis2, srcs, bstep_d(d, add, lv[0] + 1)),
 {
     let l = lv[0];
-    let n = qv.len() - 1;
     let d2 = bstep_d(d, add, l + 1);
     lemma_step(has, qv, lv, vis, qv2, lv2, vis2, add, srcs, d);
     lemma_step_queue(has, qv, lv, vis, qv2, lv2, vis2, add);
     assert(is_vis(vis, qv[0]) && d(qv[0]) == lv[0]);
-    assert forall|v: int| is_vis(vis, v) implies !add.contains(v) && #[trigger] d2(v) == d(v) by {
+    assert forall|v: int| #[trigger] is_vis(vis, v) implies d2(v) == d(v) by {
         if add.contains(v) {
             let k = choose|k: int| 0 <= k < add.len() && add[k] == v;
             assert(!vis[add[k]]);
         }
     }
-    assert(pv.skip(1).len() == n);
-    assert forall|i: int| 0 <= i < qv2.len() implies pitem_ok(has, qv2, vis2, srcs, d2, #[trigger] pv2[i], qv2[i]) by {
-        if i < n {
-            assert(pv2[i] == pv.skip(1)[i]);
-            assert(pv2[i] == pv[i + 1]);
-            assert(qv2[i] == qv[i + 1]);
-            assert(pitem_ok(has, qv, vis, srcs, d, pv[i + 1], qv[i + 1]));
-            assert(is_vis(vis, qv[i + 1]));
-            assert(d2(qv[i + 1]) == d(qv[i + 1]));
-            match pv[i + 1] {
-                Some(u) => {
-                    assert(is_done(qv, vis, u));
-                    assert(is_done(qv2, vis2, u));
-                    assert(is_vis(vis, u));
-                    assert(d2(u) == d(u));
-                }
-                None => {}
-            }
-        } else {
-            let k = i - n;
-            assert(pv2[i] == Some(qv[0]));
-            assert(qv2[i] == add[k]);
-            assert(add.contains(add[k]));
-            assert(!vis[add[k]]);
-            if srcs.contains(add[k]) { assert(is_vis(vis, add[k])); }
-            assert(is_done(qv2, vis2, qv[0]));
-            assert(has(qv[0], add[k]));
-            assert(d2(qv[0]) == d(qv[0]));
-            assert(d2(add[k]) == l + 1);
-        }
+    assert forall|k: int| 0 <= k < add.len() implies !is_vis(vis, #[trigger] add[k]) && has(qv[0], add[k]) && d2(add[k]) == d(qv[0]) + 1 by {
+        assert(add.contains(add[k]));
     }
+    lemma_pitems_step(has, qv, pv, vis, qv2, pv2, vis2, add, srcs, d, d2);
 }
 
 /// no walk from a source to a vertex that has not been yielded yet is shorter than the front level
@@ -238,7 +264,7 @@ proof fn lemma_pnext_post(has: ArcRel, qv: Seq<int>, pv: Seq<Option<int>>, lv: S
     assert forall|t: int| !#[trigger] is_done(qv, vis, t) implies is_lower_bound(has, unit_w(), srcs, t, lv[0]) by {
         lemma_undone_lower(has, qv, lv, vis, srcs, d, t);
     }
-    assert(pitem_ok(has, qv, vis, srcs, d, pv[0], qv[0]));
+    assert(pitem_at(has, qv, pv, vis, srcs, d, 0));
     assert(is_vis(vis, qv[0]) && d(qv[0]) == lv[0]);
     match pv[0] {
         Some(u) => { lemma_vis_exact_ne(has, qv, lv, vis, srcs, d, u); }
